@@ -184,6 +184,58 @@ int main(int argc, char** argv) {
                 out << " " << id << ":" << hx(rawv(e.first));
             }
             out << " ]";
+        } else if (op == "phantom" || op == "getmiss") {
+            // phantom S L le R re max rtl K V : scan collecting node versions, then insert K (absent, inside
+            // the covered interval) and test whether some collected (version,node) pair went stale.
+            // getmiss S K V : get K (miss) with checked_version, insert K, test staleness.
+            std::string st = unhex(tk());
+            std::vector<std::pair<node_version64_body, node_version64*>> nv;
+            bool cov = false;
+            std::string k, v;
+            std::size_t nres = 0;
+            status s = status::OK;
+            if (op == "phantom") {
+                std::string ls, rs;
+                std::string lt = tk();
+                scan_endpoint le = ep(tk());
+                std::string rt = tk();
+                scan_endpoint re = ep(tk());
+                std::size_t mx = std::stoul(tk());
+                bool rtl = tk() == "1";
+                k = unhex(tk());
+                v = unhex(tk());
+                std::string_view lk = keyview(lt, ls), rk = keyview(rt, rs);
+                std::vector<std::tuple<std::string, char*, std::size_t>> tl;
+                s = scan<char>(st, lk, le, rk, re, tl, &nv, mx, rtl);
+                nres = tl.size();
+                std::pair<char*, std::size_t> g{};
+                bool absent = get<char>(st, k, g) == status::WARN_NOT_EXIST;
+                std::string lks = (le == scan_endpoint::INF) ? std::string() : std::string(lk);
+                bool inl = le == scan_endpoint::INF || k > lks || (k == lks && le == scan_endpoint::INCLUSIVE);
+                bool inr = re == scan_endpoint::INF || k < std::string(rk) || (k == std::string(rk) && re == scan_endpoint::INCLUSIVE);
+                cov = s == status::OK && absent && inl && inr;
+                if (cov && mx != 0 && nres >= mx) {
+                    // limited read: covered up to the last entry produced
+                    if (!rtl) cov = k < std::get<0>(tl.back());
+                    else cov = k > std::get<0>(tl.back());
+                }
+                if (rtl && nres == 0) cov = cov && true;
+            } else {
+                k = unhex(tk());
+                v = unhex(tk());
+                std::pair<char*, std::size_t> g{};
+                std::pair<node_version64_body, node_version64*> cv{};
+                s = get<char>(st, k, g, &cv);
+                cov = s == status::WARN_NOT_EXIST;
+                if (cv.second != nullptr) nv.emplace_back(cv);
+            }
+            status ps = status::OK;
+            if (cov) ps = put<char>(token, st, k, v.data(), v.size());
+            bool det = false;
+            for (auto& e : nv)
+                if (e.second->get_stable_version() != e.first) det = true;
+            out << op << " " << s << " n=" << nres << " cov=" << cov << " det=" << (cov ? det : false)
+                << " nvn=" << nv.size() << " put=" << ps;
         } else if (op == "dump") {
             std::string st = unhex(tk());
             tree_instance* ti{};
